@@ -145,7 +145,11 @@ def generate(seed: int, run: int, tier: str) -> dict:
         rng.shuffle(order)
         if rng.random() < 0.3:
             ops.append({"op": "bump", "prefix": "SYM", "to": rng.choice([9, 99, 999, 9999]) * rng.choice([1, 1, 1, 2, 5]) - rng.randrange(0, 8)})
-        ops.append({"op": "fresh", "order": order, "vids": [_vid(rng) for _ in order], "assume": assumes, "fargs": fargs, "sorder": rng.sample(range(ns), ns)})
+        # display names: distinct, all equal ("F" used by several laws), or defaulted
+        naming = rng.choice(["distinct", "distinct", "same", "same", "default", "pairs"])
+        names = {"distinct": [f"v{i}" for i in range(nv)], "same": ["F"] * nv, "default": [None] * nv, "pairs": [f"u{i // 2}" for i in range(nv)]}[naming]
+        fnames = rng.choice([None, ["F"] * nf]) if nf else None
+        ops.append({"op": "fresh", "order": order, "vids": [_vid(rng) for _ in order], "assume": assumes, "fargs": fargs, "sorder": rng.sample(range(ns), ns), "names": names, "fnames": fnames})
         for ast in asts:
             if rng.random() < p_clear:
                 ops.append({"op": "clear_cache"})
@@ -157,7 +161,7 @@ def generate(seed: int, run: int, tier: str) -> dict:
             else:
                 ops.append({"op": "build", "ast": ast, "mode": mode, "evict": evict})
     env = {"hashseed": rng.choice([0, 1, 7, 42]), "cache": rng.choice([1000, 1000, 1000, 25])}
-    return {"prop": PROP, "seed": seed, "run": run, "env": env, "timeout": 120, "idseed": rng.getrandbits(48), "ops": ops}
+    return {"prop": PROP, "seed": seed, "run": run, "env": env, "timeout": 120, "idseed": rng.getrandbits(48), "reuse_ids": rng.random() < 0.4, "ops": ops}
 
 
 # ============================================================================ child side
@@ -215,12 +219,21 @@ def zygote_init() -> None:
 
 
 class VirtualIds:
-    """Simulator-assigned object identities. Keyed by real address; holds a strong
-    reference so a real address is never reused inside a run."""
+    """Simulator-assigned object identities ("addresses").
+
+    Keyed by real address. In the default mode a strong reference is held, so an address is
+    never reused inside a run. With `reuse=True` the table holds weak references instead: when
+    an object is freed (e.g. SymPy's cache was evicted and nothing else refers to it) its
+    virtual address goes to a LIFO free list and is handed to the next new object -- which is
+    what CPython's allocator does with real addresses."""
 
     def __init__(self):
         self.table: dict[int, int] = {}
         self.keep: list = []
+        self.refs: dict[int, object] = {}
+        self.free: list[int] = []
+        self.reuse = False
+        self.reused = 0
         self.idseed = 0
         self.counter = 0
         self.calls = 0
@@ -228,16 +241,37 @@ class VirtualIds:
         self.evicted = 0
         self.op_calls = 0
 
-    def reset(self, idseed: int) -> None:
+    def reset(self, idseed: int, reuse: bool = False) -> None:
         self.table.clear()
         self.keep.clear()
+        self.refs.clear()
+        self.free.clear()
+        self.reuse = reuse
+        self.reused = 0
         self.idseed = idseed
         self.counter = 0
         self.calls = 0
 
-    def assign(self, obj, vid: int) -> None:
-        self.table[id(obj)] = vid
+    def _remember(self, obj, rid: int, vid: int) -> None:
+        self.table[rid] = vid
+        if self.reuse:
+            import weakref  # pylint: disable=import-outside-toplevel
+
+            def gone(_ref, rid=rid, vid=vid):
+                if self.table.get(rid) == vid:
+                    del self.table[rid]
+                    self.free.append(vid)
+                self.refs.pop(rid, None)
+
+            try:
+                self.refs[rid] = weakref.ref(obj, gone)
+                return
+            except TypeError:
+                pass
         self.keep.append(obj)
+
+    def assign(self, obj, vid: int) -> None:
+        self._remember(obj, id(obj), vid)
 
     def begin_op(self, evict_at) -> None:
         self.op_calls = 0
@@ -261,11 +295,14 @@ class VirtualIds:
         rid = id(obj)
         v = self.table.get(rid)
         if v is None:
-            h = hashlib.sha256(f"{self.idseed}/{self.counter}".encode()).digest()
-            v = int.from_bytes(h[:5], "big") | 1
-            self.counter += 1
-            self.table[rid] = v
-            self.keep.append(obj)
+            if self.reuse and self.free:
+                v = self.free.pop()
+                self.reused += 1
+            else:
+                h = hashlib.sha256(f"{self.idseed}/{self.counter}".encode()).digest()
+                v = int.from_bytes(h[:5], "big") | 1
+                self.counter += 1
+            self._remember(obj, rid, v)
         return v
 
 
@@ -715,7 +752,8 @@ def _get_vec(world: World, i: int):
 
 def _new_vec(world: World, i: int, vid):
     vm = _STATE["vm"]
-    v = vm.VectorSymbol(f"v{i}")
+    names = getattr(world, "names", None) or []
+    v = vm.VectorSymbol(names[i] if i < len(names) else f"v{i}")
     if vid is not None:
         _STATE["ids"].assign(v, vid)
     world.vecs[i] = v
@@ -733,6 +771,7 @@ def _fresh(world: World, op: dict) -> None:
     world.assumes = list(op.get("assume", []))
     world.fargs = [list(a) for a in op.get("fargs", [])]
     vids = op.get("vids") or []
+    world.names = list(op.get("names") or [])
     for pos, i in enumerate(op.get("order", [])):
         _new_vec(world, i, vids[pos] if pos < len(vids) else None)
     world.scalars = {}
@@ -754,7 +793,8 @@ def _fresh(world: World, op: dict) -> None:
     world.scalar_name[t.name] = "t"
     world.vfuncs = {}
     for j, _args in enumerate(world.fargs):
-        f = vm.VectorFunction(f"F{j}")
+        fn = op.get("fnames")
+        f = vm.VectorFunction(fn[j] if fn and j < len(fn) else f"F{j}")
         world.vfuncs[j] = f
         world.vfunc_index[f.name] = j
     g = Function("g")
@@ -785,7 +825,7 @@ def child_run(job: dict) -> dict:
     from symplyphysics.core.symbols import id_generator  # pylint: disable=import-outside-toplevel
     vm = _STATE["vm"]
     ids: VirtualIds = _STATE["ids"]
-    ids.reset(int(job.get("idseed", 0)))
+    ids.reset(int(job.get("idseed", 0)), bool(job.get("reuse_ids", False)))
     hits = _STATE["hits"]
     signal.signal(signal.SIGALRM, _alarm)
     world = World()
@@ -802,6 +842,9 @@ def child_run(job: dict) -> dict:
         steps += 1
         if kind == "clear_cache":
             clear_cache()
+            if ids.reuse:
+                import gc  # pylint: disable=import-outside-toplevel
+                gc.collect()
             faults["clear_cache"] += 1
         elif kind == "bump":
             cur = id_generator._ids.get(op["prefix"], 0)  # pylint: disable=protected-access
@@ -900,6 +943,7 @@ def child_run(job: dict) -> dict:
         events.append([step, kind, hashlib.sha256((outcome or "").encode()).hexdigest()[:16]])
         if violation:
             break
+    faults["address_reused"] = ids.reused
     fired = faults["clear_cache"] + faults["evict_mid_op"] + faults["bump"] + (1 if faults["epoch"] > 1 else 0)
     return {
         "events": events,
